@@ -98,7 +98,7 @@ class Spec(PropSpec):
     ]
 
     def gen_cases(self, ctx):
-        n = 160 if ctx.tier == "quick" else 2000
+        n = 400 if ctx.tier == "quick" else 3000
         if ctx.escalate:
             n *= 2
         return [F.gen_latency_script(ctx.rng) for _ in range(n)]
